@@ -55,8 +55,14 @@ var numberedName = regexp.MustCompile(`^[A-Za-z]{1,2}[0-9]+$`)
 
 // argSwapExceptions: deliberate reversals, confirmed by reading.
 var argSwapExceptions = map[string]string{
+	"render3d.*RefractMaterial.DestDensity calls SourceDensity: dest for parameter source": "deliberate reversal: the destination density of a refraction is the source density with the roles exchanged and the normal negated",
+	"render3d.*RefractMaterial.DestDensity calls SourceDensity: source for parameter dest": "deliberate reversal (see above)",
+	"render3d.*RefractMaterial.SourceDensity calls reflectAmount: dest for parameter source": "SampleSource chooses reflection with probability reflectAmount(normal, dest); its density must use the same probability (sampler/density agreement is checked by SAMPLERPAIR)",
 	"render3d.*RefractMaterial.DestDensity calls SourceDensity with (dest, source) for (source, dest)": "the destination density of a refraction is by definition the source density with the roles reversed and the normal negated (the sibling SampleDest does the same)",
 }
+
+// argRoleRule, when set, makes runArgSwap also emit ARGROLE obligations.
+var argRoleRule = "ARGROLE"
 
 func (c *Ctx) runArgSwap(rule string, pkgs []*packages.Package, fileOK func(name string) bool, pairOK func(a, b string) bool) {
 	for _, p := range pkgs {
@@ -99,6 +105,52 @@ func (c *Ctx) runArgSwap(rule string, pkgs []*packages.Package, fileOK func(name
 							enc = types.ExprString(fd.Recv.List[0].Type) + "." + enc
 						}
 						break
+					}
+				}
+				// ARGROLE: the enclosing function has a parameter spelled like the callee's
+				// parameter (same type) but passes ANOTHER of its own parameters of that type.
+				if argRoleRule != "" {
+					var encParams map[string]types.Type
+					for i := len(stack) - 1; i >= 0; i-- {
+						if fd, ok := stack[i].(*ast.FuncDecl); ok {
+							encParams = map[string]types.Type{}
+							if fd.Type.Params != nil {
+								for _, f := range fd.Type.Params.List {
+									for _, nm := range f.Names {
+										if o := p.TypesInfo.Defs[nm]; o != nil {
+											encParams[nm.Name] = o.Type()
+										}
+									}
+								}
+							}
+							break
+						}
+					}
+					for i := 0; i < len(call.Args); i++ {
+						pi := sig.Params().At(i)
+						if len(pi.Name()) <= 1 || numberedName.MatchString(pi.Name()) {
+							continue
+						}
+						id, ok := ast.Unparen(call.Args[i]).(*ast.Ident)
+						if !ok {
+							continue
+						}
+						own, has := encParams[pi.Name()]
+						other, isParam := encParams[id.Name]
+						if !has || !types.Identical(own, pi.Type()) {
+							continue
+						}
+						c.analysed(p.PkgPath + "." + enc)
+						key := fmt.Sprintf("%s.%s calls %s: %s for parameter %s", shortPkg(p.PkgPath), enc, fn.Name(), id.Name, pi.Name())
+						if id.Name == pi.Name() {
+							c.ok(argRoleRule, key, call.Pos(), "the caller's parameter of the same name is passed")
+						} else if isParam && types.Identical(other, pi.Type()) {
+							if why, ok := argSwapExceptions[key]; ok {
+								c.except(argRoleRule, key, call.Pos(), why)
+							} else {
+								c.bad(argRoleRule, key, call.Pos(), fmt.Sprintf("the callee's parameter %s has a namesake among the caller's own parameters (same type %s), but the caller's parameter %s is passed instead: the roles are confused", pi.Name(), pi.Type(), id.Name))
+							}
+						}
 					}
 				}
 				for i := 0; i < len(call.Args); i++ {
